@@ -49,15 +49,25 @@ impl OutputManager {
         }
 
         // Test write permissions by creating a temporary file
+        // create_new: never overwrite (and then delete) a file of that name that is not ours
         let test_file = self.output_dir.join(".write_test");
-        fs::write(&test_file, "test").map_err(|e| {
-            OutputError::PermissionDenied(format!(
-                "Cannot write to output directory {}: {}",
-                self.output_dir.display(),
-                e
-            ))
-        })?;
-        fs::remove_file(&test_file).ok(); // Ignore errors on cleanup
+        match fs::OpenOptions::new()
+            .write(true)
+            .create_new(true)
+            .open(&test_file)
+        {
+            Ok(_) => {
+                fs::remove_file(&test_file).ok(); // Ignore errors on cleanup
+            }
+            Err(e) if e.kind() == std::io::ErrorKind::AlreadyExists => {}
+            Err(e) => {
+                return Err(OutputError::PermissionDenied(format!(
+                    "Cannot write to output directory {}: {}",
+                    self.output_dir.display(),
+                    e
+                )));
+            }
+        }
 
         Ok(())
     }
